@@ -135,8 +135,10 @@ fn check<C: Suite>(case: &Case, ctx: &mut Ctx) -> CheckResult {
             }
             let msg = if use_b_msg { &msg_b } else { &msg_a };
             let package = SigningPackage::new(comms, msg);
-            let is_a = package == a.package;
-            let is_b = package == b.package;
+            // decided on the wire encodings, not by the library's PartialEq
+            let pbytes = package.serialize().ok();
+            let is_a = pbytes == a.package.serialize().ok();
+            let is_b = pbytes == b.package.serialize().ok();
             // every A share / B share verified standalone against this package
             for id in &signers {
                 let vs = keys.pubkeys.verifying_shares()[id];
@@ -250,7 +252,8 @@ fn check<C: Suite>(case: &Case, ctx: &mut Ctx) -> CheckResult {
         subs.push((format!("signer-replaced@{rep}"), SigningPackage::new(comms, &msg_a)));
     }
     for (name, package) in &subs {
-        if *package == a.package {
+        // "is this really another package?" is decided on the wire encodings, not by the library's PartialEq
+        if package.serialize().ok() == a.package.serialize().ok() {
             continue;
         }
         ctx.eval(&format!("{base},sub,{name}"), true);
@@ -269,7 +272,8 @@ fn check<C: Suite>(case: &Case, ctx: &mut Ctx) -> CheckResult {
                     ensure!(ctx, matches!(r, Err(Error::MissingCommitment)), "C05/signs-without-own-entry", "signer {} signed / failed differently although its entry is missing ('{}'): {:?}", id_hex::<C>(id), name, r.as_ref().map(|_| "Ok"));
                     ctx.label("signer-side:missing");
                 }
-                Some(c) if *c != a.commitments[id] => {
+                // compared element by element, not by the library's PartialEq
+                Some(c) if c.hiding().value() != a.commitments[id].hiding().value() || c.binding().value() != a.commitments[id].binding().value() => {
                     ensure!(ctx, matches!(r, Err(Error::IncorrectCommitment)), "C05/signs-with-foreign-commitment", "signer {} did not refuse with IncorrectCommitment although its entry differs from its nonces ('{}'): {:?}", id_hex::<C>(id), name, r.as_ref().map(|_| "Ok"));
                     ctx.label("signer-side:incorrect");
                 }
